@@ -2,6 +2,7 @@ import CprocVerif.Model.CSem
 import CprocVerif.Model.Lower
 import CprocVerif.Model.CSem2
 import CprocVerif.Model.Lower2
+import CprocVerif.Model.CSem3
 import CprocVerif.Spec.QbeWf
 /-!
 Line-protocol driver for property C01 (fragment 𝔽₁: pure scalar integer expressions).
@@ -54,6 +55,11 @@ Fragment 𝔽₂ (function bodies with statements, `Model/CSem2.lean`, `Model/Lo
            | (switch EXPR STMT)                   EXPR already promoted (`exprpromote`); STMT is the body,
                                                   normally a (block …) whose elements include the labels
            | (case U) | (default)                 labels; U = `intconstexpr`'s value as unsigned decimal
+           | (call DST RT NAME EXPR …)            `[x =] NAME(args);`  DST ::= (none) | (K TY); RT the return
+                                                  type of NAME; the EXPRs already converted to the parameter types
+A PROGRAM (stage D, `Model/CSem3.lean`) is a line `(prog FUNC2 …)`: `emit` prints its functions in order;
+`eval` on `(prog …) | a1 a2 …` calls the LAST function with the arguments: `c=` is `CSem3.runP`, `il=` the
+result of `Qbe.runFunc` on the module of all emitted functions; `wt=0` unless `CSem3.wtP`.
     In EXPR, (p TY K) names VARIABLE K: parameters 0 … n-1, then the locals in declaration order.
 `eval` on such a line runs `CSem2.runC` with the fuel given by `--cfuel N` (default 100000; `c=ub` also
 when that fuel is exhausted) and the IL of `Lower2.emitFunc`; `wt=0` is also printed when a statement
@@ -170,6 +176,12 @@ def parseStmtF : Nat → SExp → Except String Stmt
     | .list [.atom "switch", c, b] => do pure (.switch_ (← parseExprF n c) (← parseStmtF n b))
     | .list [.atom "case", u] => do pure (.case_ (← parseNat u))
     | .list [.atom "default"] => pure .default_
+    | .list (.atom "call" :: dst :: rt :: .atom name :: args) => do
+      let d ← match dst with
+        | .list [.atom "none"] => pure none
+        | .list [k, t] => do pure (some (← parseNat k, ← parseTy t))
+        | _ => .error "call destination"
+      pure (.call d (← parseTy rt) name (← args.mapM (parseExprF n)))
     | .list [.atom "break"] => pure .break_
     | .list [.atom "continue"] => pure .continue_
     | _ => .error "statement"
@@ -179,13 +191,19 @@ def parseFunc2 (fuel : Nat) : SExp → Except String CSem2.Func
     pure ⟨name, ← parseTy ret, ← ps.mapM parseTy, ← ls.mapM parseTy, ← parseStmtF fuel body⟩
   | _ => .error "function"
 
-/-- A line describes a function of 𝔽₁ (`fn`) or of 𝔽₂ (`fn2`). -/
-def parseAnyLine (s : String) : Except String (CSem.Func ⊕ CSem2.Func) := do
+inductive Line where
+  | f1 (f : CSem.Func)
+  | f2 (f : CSem2.Func)
+  | prog (fs : List CSem2.Func)
+
+/-- A line describes a function of 𝔽₁ (`fn`), of 𝔽₂ (`fn2`), or a program (`prog`). -/
+def parseAnyLine (s : String) : Except String Line := do
   let toks := tokenize s
   let sx ← parseSExp toks
   match sx with
-  | .list (.atom "fn2" :: _) => do pure (.inr (← parseFunc2 (toks.length + 1) sx))
-  | _ => do pure (.inl (← parseFunc (toks.length + 1) sx))
+  | .list (.atom "fn2" :: _) => do pure (.f2 (← parseFunc2 (toks.length + 1) sx))
+  | .list (.atom "prog" :: fs) => do pure (.prog (← fs.mapM (parseFunc2 (toks.length + 1))))
+  | _ => do pure (.f1 (← parseFunc (toks.length + 1) sx))
 
 def parseIntLit (s : String) : Option Int :=
   if s.startsWith "-" then (s.drop 1).toString.toNat?.map fun n => -(n : Int)
@@ -215,12 +233,16 @@ def cmdEmit (o : Opts) : IO UInt32 := do
     if l.isEmpty then continue
     match parseAnyLine l with
     | .error e => out.putStrLn ("bad " ++ e)
-    | .ok (.inl f) =>
+    | .ok (.f1 f) =>
       out.putStr (render (emitFunc o.cs id f))
       id := nextBlockId o.cs id f
-    | .ok (.inr f) =>
-      out.putStr (render (Lower2.emitFunc o.cs id f))
+    | .ok (.f2 f) =>
+      out.putStr (Lower2.render2 (Lower2.emitFunc o.cs id f))
       id := Lower2.nextBlockId o.cs id f
+    | .ok (.prog fs) =>
+      for f in fs do
+        out.putStr (Lower2.render2 (Lower2.emitFunc o.cs id f))
+        id := Lower2.nextBlockId o.cs id f
     out.putStrLn "--"
   out.flush
   return 0
@@ -237,7 +259,26 @@ def cmdEval (o : Opts) : IO UInt32 := do
     | [fs, as] =>
       match parseAnyLine fs with
       | .error e => out.putStrLn ("bad " ++ e)
-      | .ok (.inr f) =>
+      | .ok (.prog fs) =>
+        let ws := (as.trimAscii.toString.splitOn " ").filter (· ≠ "")
+        match ws.mapM parseIntLit, fs.getLast? with
+        | some vs, some f =>
+          let okTy := CSem3.wtP fs && envOKb o.cs f.params vs
+          let c := match CSem3.runP o.cs o.cfuel fs f.name vs with
+            | some v => toString v
+            | none => "ub"
+          let qfs := (fs.foldl (fun (acc : List Qbe.Func × Nat) g =>
+            (acc.1 ++ [Lower2.emitFunc o.cs acc.2 g], Lower2.nextBlockId o.cs acc.2 g)) ([], o.start)).1
+          let m : Qbe.Module := ⟨(qfs.map Qbe.Def.func).toArray⟩
+          let p := Qbe.Prog.ofModule m
+          let r := Qbe.runFunc p Qbe.noExt f.name (argsOf f.params vs) o.fuel
+          let wfOk := match Qbe.wf m with
+            | .ok () => true
+            | .error _ => false
+          out.putStrLn ((if okTy then "" else "wt=0 ") ++ (if wfOk then "" else "wf=0 ") ++
+            "c=" ++ c ++ " il=" ++ r.end.render)
+        | _, _ => out.putStrLn "bad argument"
+      | .ok (.f2 f) =>
         let ws := (as.trimAscii.toString.splitOn " ").filter (· ≠ "")
         match ws.mapM parseIntLit with
         | none => out.putStrLn "bad argument"
@@ -254,7 +295,7 @@ def cmdEval (o : Opts) : IO UInt32 := do
             | .error _ => false
           out.putStrLn ((if okTy then "" else "wt=0 ") ++ (if wfOk then "" else "wf=0 ") ++
             "c=" ++ c ++ " il=" ++ r.end.render)
-      | .ok (.inl f) =>
+      | .ok (.f1 f) =>
         let ws := (as.trimAscii.toString.splitOn " ").filter (· ≠ "")
         match ws.mapM parseIntLit with
         | none => out.putStrLn "bad argument"
